@@ -365,3 +365,87 @@ def direct_recording_pulses(samples, used_bits, tps):
             run = 1
     pulses.append(run * tps)
     return pulses
+
+
+# ---------------------------------------------------------------- PZX blocks with explicit levels
+
+def pzx_from_blocks(blocks):
+    """PZX bytes for  ('PULS', [(count, duration), ...]) | ('DATA', level, bytes, used_bits, s0, s1, tail)
+    | ('PAUS', level, duration)  with the levels exactly as given (they need not agree with the
+    running level: the format then requires a level change at the start of the block)."""
+    out = pzx_block(b'PZXT', [1, 0])
+    for b in blocks:
+        if b[0] == 'PULS':
+            out += pzx_block(b'PULS', pzx_puls_body_raw(b[1]))
+        elif b[0] == 'DATA':
+            _, level, data, used, s0, s1, tail = b
+            nbits = 8 * (len(data) - 1) + used
+            body = w32((level << 31) | nbits) + w16(tail) + [len(s0), len(s1)]
+            for d in list(s0) + list(s1):
+                body += w16(d)
+            out += pzx_block(b'DATA', body + list(data))
+        else:
+            out += pzx_block(b'PAUS', w32((b[1] << 31) | b[2]))
+    return out
+
+
+def pzx_puls_body_raw(pulses):
+    """Like pzx_puls_body but a zero duration is allowed with any count (the count word is written
+    whenever the count is not 1)."""
+    body = []
+    for c, d in pulses:
+        assert 1 <= c < 0x8000 and 0 <= d < 1 << 31
+        if c != 1 or d >= 0x10000:
+            body += w16(0x8000 | c)
+        if d < 0x8000:
+            body += w16(d)
+        else:
+            body += w16(0x8000 | (d >> 16)) + w16(d & 0xFFFF)
+    return body
+
+
+def pzx_level_changes(blocks, first_edge=0):
+    """Times at which the signal level changes, from the PZX 1.0 text alone: the level is low before the
+    tape starts; a PULS block starts low, DATA and PAUS blocks start at their stated level (a change at
+    the block start if the running level differs); every pulse - of zero duration too - ends with a
+    change; a pause holds its level.  Two changes at the same time cancel.  Returns (changes, t_end)."""
+    t = first_edge
+    level = 0
+    ch = []
+
+    def start(lv):
+        nonlocal level
+        if level != lv:
+            ch.append(t)
+            level = lv
+
+    def pulse(d):
+        nonlocal t, level
+        t += d
+        ch.append(t)
+        level ^= 1
+
+    for b in blocks:
+        if b[0] == 'PULS':
+            start(0)
+            for c, d in b[1]:
+                for _ in range(c):
+                    pulse(d)
+        elif b[0] == 'DATA':
+            _, lv, data, used, s0, s1, tail = b
+            start(lv)
+            for bit in bits_of(data, used):
+                for d in (s1 if bit else s0):
+                    pulse(d)
+            if tail:
+                pulse(tail)
+        else:
+            start(b[1])
+            t += b[2]
+    out = []
+    for e in ch:
+        if out and out[-1] == e:
+            out.pop()
+        else:
+            out.append(e)
+    return out, t
